@@ -133,6 +133,7 @@ var c07ErrTable = [][2]string{
 	{"generate renewable tokens", "role-batch-renewable"},
 	{"generate tokens with an explicit max TTL", "role-batch-emax"},
 	{"generate tokens with limited use count", "role-batch-uses"},
+	{"batch tokens cannot have a limited use count", "role-batch-uses"},
 	// last: generic texts that are substrings of more specific ones above
 	{"invalid 'token_type' value", "bad-type"},
 	{"could not parse duration", "dur-parse"},
